@@ -164,8 +164,19 @@ func TestVerifC19(t *testing.T) {
 				}
 				items := cache[ri]
 				it := items[cs.R.Intn(len(items))]
-				if cs.R.Chance(0.25) {
+				switch c := cs.R.Intn(100); {
+				case c < 25:
 					it = items[0] // the valid template: keeps the state moving
+				case c < 40: // a token soup in one string field
+					if x := c19RandomStrItem(e, r, cs.R); x != nil {
+						it = *x
+						it.BadUTF8 = c19BadUTF8Path(it.Target)
+					}
+				case c < 55: // two or three fields mutated at once
+					if x := c19ComboItem(e, r, cs.R); x != nil {
+						it = *x
+						it.BadUTF8 = c19BadUTF8Path(it.Target)
+					}
 				}
 				if it.Stream != nil && !cs.R.Chance(0.05) {
 					continue
